@@ -121,13 +121,14 @@ def run_conc(lines, nthreads_hint=3, release=False):
     impl_chunks = _run_chunks([[exe, "conc", cp] for cp in cpaths], timeout=3600)
     impl = []
     singles = [0]
+    hung = [0]
 
     def one_by_one(cases):
         out = []
         one = os.path.join(d, "one_%s.txt" % tag)
         for c in cases:
-            if singles[0] >= 1500:
-                out.append("98")          # budget exhausted: counted as a crash
+            if singles[0] >= 1500 or hung[0] >= 4:
+                out.append("98")          # budget exhausted (or enough hanging cases to report): counted as a crash
                 continue
             singles[0] += 1
             _write_lines(one, [c])
@@ -136,6 +137,7 @@ def run_conc(lines, nthreads_hint=3, release=False):
                                    timeout=60)
                 out.append(q.stdout.strip().split("\n")[0] if q.returncode == 0 and q.stdout.strip() else "98")
             except subprocess.TimeoutExpired:
+                hung[0] += 1
                 out.append("98")
         return out
 
